@@ -175,30 +175,33 @@ func runC15(c *Ctx, r *Run) {
 			})
 			// whole-struct conversions between the object and a wire struct with the same field set
 			// (`cbor.Marshal((*wire)(m))`, `*m = T(decoded)`): every field is carried over under its own name
-			convAll := func(f *ssa.Function, fromObj bool, visit func(W *types.Named)) {
-				allInstrs(f, func(in ssa.Instruction) {
-					var x ssa.Value
-					var to types.Type
-					switch y := in.(type) {
-					case *ssa.ChangeType:
-						x, to = y.X, y.Type()
-					case *ssa.Convert:
-						x, to = y.X, y.Type()
-					default:
-						return
-					}
-					from := namedOf(derefType(x.Type()))
-					dst := namedOf(derefType(to))
-					if from == nil || dst == nil {
-						return
-					}
-					if fromObj && from == T && wire[dst] {
-						visit(dst)
-					}
-					if !fromObj && dst == T && (wire[from] || unWire[from]) {
-						visit(from)
-					}
-				})
+			convAll := func(f0 *ssa.Function, fromObj bool, visit func(W *types.Named)) {
+				// (the conversion may sit in a helper of the codec: `toMarshallable()` called by MarshalBinary)
+				for _, f := range regionOf(f0) {
+					allInstrs(f, func(in ssa.Instruction) {
+						var x ssa.Value
+						var to types.Type
+						switch y := in.(type) {
+						case *ssa.ChangeType:
+							x, to = y.X, y.Type()
+						case *ssa.Convert:
+							x, to = y.X, y.Type()
+						default:
+							return
+						}
+						from := namedOf(derefType(x.Type()))
+						dst := namedOf(derefType(to))
+						if from == nil || dst == nil {
+							return
+						}
+						if fromObj && from == T && wire[dst] {
+							visit(dst)
+						}
+						if !fromObj && dst == T && (wire[from] || unWire[from]) {
+							visit(from)
+						}
+					})
+				}
 			}
 			convMar := map[string]string{}
 			convAll(mar, true, func(W *types.Named) {
